@@ -58,10 +58,10 @@ def strategy(tier):
                      st.booleans())
 
 
-ALPHA = ["subA", "unsubA", "subB", "unsubB", "start", "stop", "T-q", "T+q", "+1.2"]
+ALPHA = ["subA", "unsubA", "subB", "unsubB", "start", "stop", "T-q", "T+q", "+1.2", "same"]
 ENUM_LEN = {"quick": 5, "thorough": 6}
-EXHAUSTIVE = {"quick": "all 9^5 = 59049 scripts of length 5 over {subscribe/stop-subscribe of two eventgroups at one server, start, stop} x timing prefixes {refresh tick -RES/4, +RES/4, +1.2 s}, for finite TTL with refresh and infinite TTL without",
-              "thorough": "all 9^6 = 531441 scripts of length 6 over the same alphabet, for both TTL configurations"}
+EXHAUSTIVE = {"quick": "all 10^5 scripts of length 5 over {subscribe/stop-subscribe of two eventgroups at one server, start, stop} x timing prefixes {refresh tick -RES/4, +RES/4, +1.2 s, same loop iteration as the previous call}, for finite TTL with refresh and infinite TTL without",
+              "thorough": "all 10^6 scripts of length 6 over the same alphabet, for both TTL configurations"}
 
 
 def enum_size(tier):
@@ -75,8 +75,8 @@ def enum_case(tier, idx):
     for _ in range(ENUM_LEN[tier]):
         idx, r = divmod(idx, len(ALPHA))
         a = ALPHA[r]
-        if a in ("T-q", "T+q", "+1.2"):
-            when = {"T-q": ["t", 0, "-q"], "T+q": ["t", 0, "+q"], "+1.2": ["d", 1.2]}[a]
+        if a in ("T-q", "T+q", "+1.2", "same"):
+            when = {"T-q": ["t", 0, "-q"], "T+q": ["t", 0, "+q"], "+1.2": ["d", 1.2], "same": ["s"]}[a]
             continue
         if a in ("start", "stop"):
             steps.append({"op": a, "when": when})
